@@ -1,4 +1,4 @@
-Require Import OPC.gen.GenKinds OPC.Uni OPC.Names OPC.Codec OPC.Types OPC.Endpoint OPC.EndpointThm OPC.Parse OPC.ParseThm OPC.Multipart OPC.MultipartThm.
+Require Import OPC.gen.GenKinds OPC.Uni OPC.Names OPC.Codec OPC.Types OPC.Endpoint OPC.EndpointThm OPC.Parse OPC.ParseThm OPC.Multipart OPC.MultipartThm OPC.Client OPC.ClientThm.
 From Coq Require Import NArith ZArith List Bool. Import ListNotations. Open Scope N_scope.
 
 (* every query / header / cookie argument appears under exactly its wire name in exactly its location, with its encoded value *)
@@ -96,3 +96,26 @@ Proof. exact mp_nested_is_json. Qed.
 Print Assumptions C03_mp_nested_is_json.
 Theorem C03_mp_none_member_first_refuted : exists T f v, mp_value T f (KUnion [KNone; KStr]) true v = None /\ mp_value T f (KUnion [KStr; KNone]) true v <> None.
 Proof. exact mp_none_member_first_refuted. Qed.
+
+(* "that client adds its credential header": the life cycle of AuthenticatedClient objects (Client.v: shared headers dict, lazily built
+   cached httpx clients, evolve / with_* derivations). For EVERY operation sequence inside the guard, every use of a client whose
+   token was not reassigned after its httpx client was built carries exactly one value under its auth header name: its OWN credential. *)
+Theorem C03_own_credential : forall (A : list str) (ops : list op),
+  consistent A = true -> forallb (op_ok A) ops = true -> own_credential_run init ops = true.
+Proof. exact own_credential. Qed.
+Print Assumptions C03_own_credential.
+(* a derived client never inherits the credential of the client it was derived from, whatever that one already sent *)
+Theorem C03_derived_sends_own_token : forall (A : list str) (ops : list op) (i : nat) (tok : str) (v : variant) w c,
+  consistent A = true -> forallb (op_ok A) ops = true ->
+  fst (run init ops) = w -> nth_error (clients w) i = Some c ->
+  snd (step (fst (step w (EvolveToken i tok))) (Use (length (clients w)) v)) = Some [cred (with_token c tok)].
+Proof. exact derived_sends_own_token. Qed.
+Print Assumptions C03_derived_sends_own_token.
+(* the guards are necessary (each witness is replayed on the generated client by the correspondence) *)
+Theorem C03_stale_after_set_token_refuted : exists ops i v c vals, forallb (op_ok [[65]]) ops = true /\ nth_error (clients (fst (run init ops))) i = Some c /\
+  snd (step (fst (run init ops)) (Use i v)) = Some vals /\ vals <> [cred c].
+Proof. exact stale_after_set_token_refuted. Qed.
+Theorem C03_inconsistent_names_refuted : exists A ops, consistent A = false /\ forallb (op_ok A) ops = true /\ own_credential_run init ops = false.
+Proof. exact inconsistent_names_refuted. Qed.
+Theorem C03_user_key_clash_refuted : exists ops, own_credential_run init ops = false.
+Proof. exact user_key_clash_refuted. Qed.
